@@ -227,3 +227,28 @@ pub fn debug_determinism(family: &str, tier: Tier, index: usize) -> i32 {
     }
     1
 }
+
+/// `mc families [quick|thorough]`: which deviation dimensions each family's configurations exercise (tooling).
+pub fn debug_families(tier: Tier) -> i32 {
+    let dims: Vec<(&str, Box<dyn Fn(&Cfg) -> bool>)> = vec![
+        ("v311", Box::new(|c| c.mqtt311)), ("v5", Box::new(|c| !c.mqtt311)), ("tiny-cap", Box::new(|c| c.cap < 64)), ("caps-by-conn", Box::new(|c| !c.caps.is_empty())),
+        ("rm-by-conn", Box::new(|c| !c.receive_maximum_by_conn.is_empty())), ("connack-by-conn", Box::new(|c| !c.connack_by_conn.is_empty())), ("no-session", Box::new(|c| c.session_answers.contains(&false))),
+        ("policy!=All", Box::new(|c| c.offline != gneiss_mqtt::client::config::OfflineQueuePolicy::PreserveAll)), ("drain1", Box::new(|c| c.one_at_a_time)), ("retries", Box::new(|c| c.max_retries.is_some())),
+        ("conns>=3", Box::new(|c| c.max_conns >= 3)), ("close", Box::new(|c| c.allow.close)), ("reset", Box::new(|c| c.allow.reset)), ("reorder", Box::new(|c| c.allow.reorder)), ("fail-acks", Box::new(|c| c.allow.fail_acks)),
+        ("hostile", Box::new(|c| c.allow.hostile)), ("srv-disc", Box::new(|c| c.allow.server_disconnect)), ("usr-disc", Box::new(|c| c.allow.submit_disconnect)), ("leak", Box::new(|c| c.allow.leak)), ("split", Box::new(|c| c.allow.split_reads)),
+        ("tick-before", Box::new(|c| c.allow.tick_before)), ("idle", Box::new(|c| !c.allow.idle_ticks.is_empty())), ("late-clock", Box::new(|c| c.clock != super::cfg::Clock::Prompt)), ("inbound", Box::new(|c| !c.inbound.is_empty())), ("in-pairs", Box::new(|c| c.allow.inbound_pairs)),
+        ("ack-timeout", Box::new(|c| c.submits.iter().any(|s| s.ack_timeout_ms.is_some()))), ("qos2", Box::new(|c| c.submits.iter().any(|s| matches!(&s.pkt, gneiss_mqtt::verif::Pkt::Publish(p) if p.qos == 2)))),
+        ("sub/unsub", Box::new(|c| c.submits.iter().any(|s| matches!(&s.pkt, gneiss_mqtt::verif::Pkt::Subscribe(_) | gneiss_mqtt::verif::Pkt::Unsubscribe(_))))), ("keepalive>0", Box::new(|c| c.keep_alive.unwrap_or(1200) > 0)),
+        ("resolver", Box::new(|c| c.resolver != gneiss_mqtt::verif::ResolverKind::Unset)), ("closure", Box::new(|c| c.closure)),
+    ];
+    print!("{:<14}", "family");
+    for (name, _) in &dims { print!(" {:>11}", name); }
+    println!();
+    for family in families::ALL_FAMILIES {
+        let configs = families::build(family, tier);
+        print!("{:<14}", format!("{}({})", family, configs.len()));
+        for (_, f) in &dims { let n = configs.iter().filter(|c| f(c)).count(); print!(" {:>11}", if n == 0 { "-".to_string() } else { n.to_string() }); }
+        println!();
+    }
+    0
+}
